@@ -149,6 +149,8 @@ type vnode struct {
 	lg     *memLogger
 	// participants that do not answer (slow / silent) are skipped by processOps
 	silent bool
+	// every operation carried to the airgapped machine, in order
+	coldLog []types.Operation
 }
 
 type cluster struct {
@@ -337,6 +339,7 @@ func (c *cluster) answerOp(n *vnode, op *types.Operation) error {
 	if string(cold.Type) == string(spf.StateAwaitParticipantsConfirmations) {
 		return n.svc.ApproveParticipation(&dto.OperationIdDTO{OperationID: cold.ID})
 	}
+	n.coldLog = append(n.coldLog, cold)
 	path, err := n.air.ProcessOperation(cold, true)
 	if err != nil {
 		return fmt.Errorf("airgapped: %w", err)
